@@ -108,6 +108,9 @@ class SourceDataWrapper(ABC):
             # determine the numpy number dtype
             number_type = known_dtypes.get(dtype_name, dset_row0.dtype)
             ReprCodeConverter.validate_numpy_dtype(number_type)
+            # chunks are always kept in the native byte order, whatever the order of the source (or cast) dtype;
+            # FrameData swaps the bytes from native to big-endian when writing
+            number_type = np.dtype(number_type).newbyteorder('=')
 
             # determine the dtype of the data set (2- or 3-tuple)
             dt = (dtype_name, number_type)
